@@ -407,6 +407,11 @@ func triple(c *mc.Ctx, ks []kcase) {
 		}
 	}
 	addA(big.NewInt(0), one, big.NewInt(2), new(big.Int).Sub(ref.L, one), ref.L, new(big.Int).Add(ref.L, one), new(big.Int).Sub(two255, one))
+	// unreduced scalars >= 2^254 (accepted through NewFromBits): a, and b below
+	addA(two254, new(big.Int).Add(new(big.Int).Mul(ref.L, big.NewInt(7)), one))
+	if c.Thorough {
+		addA(new(big.Int).Add(two254, one), new(big.Int).Sub(two255, new(big.Int).Lsh(one, 251)))
+	}
 	if c.Thorough {
 		addA(pickEvery(core, 2)...)
 		addA(pickEvery(byClass["cf-depth5"], 211)...)
@@ -436,7 +441,11 @@ func triple(c *mc.Ctx, ks []kcase) {
 			}
 		}
 	}
-	addB(big.NewInt(0), one, new(big.Int).Sub(ref.L, one), ref.L, new(big.Int).Sub(two255, one), new(big.Int).Sub(two128, one), two128, new(big.Int).Add(two128, one), two127,
+	addB(two254)
+	if c.Thorough {
+		addB(new(big.Int).Sub(two255, big.NewInt(2)), new(big.Int).Add(two128, one))
+	}
+	addB(big.NewInt(0), one, new(big.Int).Sub(ref.L, one), ref.L, new(big.Int).Sub(two255, one), new(big.Int).Sub(two128, one), two128, two127,
 		g(5), new(big.Int).And(ref.FromLE(mc.Bytes(seed, "c16-b", 0, 32)), mask255))
 	if c.Thorough {
 		addB(pickEvery(core, 12)...)
